@@ -70,7 +70,7 @@ def _sizes(ck, P, cfg):
         h = P.fn(fname)
         consts = set()
         for n in h.walk():
-            if n.k == "BinaryOperator" and n.op in ("<=", "==", "<", ">", ">=") and "size" in X.show(n.children[0]):
+            if n.k == "BinaryOperator" and n.op in ("<=", "==", "!=", "<", ">", ">=") and "size" in X.show(n.children[0]):
                 v = X.const_int(n.children[1])
                 if v is not None and v > 0:
                     consts.add(({"!=": "==", ">": "<="}.get(n.op, n.op), v))
